@@ -312,6 +312,7 @@ func newickDrive(args []string) error {
 			ev.Op = "multi"
 		}
 		var all []byte
+		var texts [][]byte // as returned by MarshalText; looked at only after every tree of the stream was marshalled
 		for k := 0; k < ntrees; k++ {
 			n := 1 + r.Intn(12)
 			chain := false
@@ -340,9 +341,12 @@ func newickDrive(args []string) error {
 			}
 			sep := nwSeps[r.Intn(len(nwSeps))]
 			ev.Trees = append(ev.Trees, before)
-			ev.Texts = append(ev.Texts, ints(txt))
+			texts = append(texts, txt)
 			ev.Seps = append(ev.Seps, sints(sep))
-			all = append(append(all, txt...), sep...)
+		}
+		for k, txt := range texts {
+			ev.Texts = append(ev.Texts, ints(txt))
+			all = append(append(all, txt...), unints(ev.Seps[k])...)
 		}
 		ev.Back, ev.Err, ev.Panic = nwReadAll(all)
 		tw.emit(ev)
